@@ -74,6 +74,10 @@ def build_facts(cfg="B", repo=REPO, quiet=True):
     os.makedirs(CACHE, exist_ok=True)
     out = facts_path(cfg, repo)
     if os.path.exists(out) and os.path.getsize(out) > 0:
+        try:
+            os.utime(out, None)     # keep the fact file of a tree in use away from the cache GC
+        except OSError:
+            pass
         return out
     lock = open(os.path.join(CACHE, "build-%s.lock" % cfg), "w")
     fcntl.flock(lock, fcntl.LOCK_EX)
@@ -125,7 +129,7 @@ def build_facts(cfg="B", repo=REPO, quiet=True):
         lock.close()
 
 
-def _gc(cfg, keep, max_files=6):
+def _gc(cfg, keep, max_files=8):
     """Keep the cache small: only the most recent fact files per config."""
     fs = sorted(glob.glob(os.path.join(CACHE, "facts-%s-*.jsonl" % cfg)), key=os.path.getmtime)
     for p in fs[:-max_files]:
